@@ -1047,7 +1047,7 @@ func (ctx *Context) evaluate() {
 			stackPush(ret)
 
 		case typeBlockPush:
-			if blockIndex > 20 {
+			if blockIndex >= len(blockStack) {
 				ctx.Error = errors.New("语句块嵌套层数过多")
 				return
 			}
@@ -1064,7 +1064,7 @@ func (ctx *Context) evaluate() {
 			}
 
 		case typeFStringBlockPush:
-			if fstrBlockIndex > 20 {
+			if fstrBlockIndex >= len(fstrBlockStack) {
 				ctx.Error = errors.New("字符串模板嵌套层数过多")
 				return
 			}
